@@ -270,3 +270,10 @@ Theorem C09_argv_bytes_valid :
   exists c : CliParse.command, CliParse.cli_parse ts = Ok c /\ CliArgs.cli_parse_bytes argv = Ok (CliArgs.ArgCmd c).
 Proof. exact (CliArgsFacts.cli_parse_bytes_valid_cmd). Qed.
 Print Assumptions C09_argv_bytes_valid.
+
+(* the handshake reader's length guard in the CURRENT sources is the one the model uses (96 = e + encrypted s +
+   tag of the encrypted payload; 65535 = Noise maximum): re-extracted on every run *)
+From Kestrel.gen Require Import Extracted.
+Theorem C09_noise_guard_constants : x_noise_guard_min = 96%N /\ x_noise_guard_max = 65535%N.
+Proof. split; reflexivity. Qed.
+Print Assumptions C09_noise_guard_constants.
